@@ -61,6 +61,19 @@ where
       simp [this, h]
     simp [decodeT, hd]
 
+/-- the server as written arms the deadline inside the request loop (F-shape fact regenerated from
+    `serveConn` on every run: were the call moved out of the loop, this and the next theorem would fail) -/
+theorem server_rearms (T : Nat) (cs : List Chunk) : run T cs = simulate T true cs 0 0 [] 0 := by
+  simp [run, Gen.server_armInLoop]
+
+/-- … so for the server itself: a client whose requests arrive complete and less than T apart gets every
+    one answered and is cut only T after the last -/
+theorem server_active_never_cut (T : Nat) (hT : T ≠ 0) (cs : List Chunk)
+    (h : ∀ c ∈ cs, c.delay < T ∧ ∃ r, decodeT c.bytes = .req r []) :
+    run T cs = ⟨cs.length, some ((cs.map (·.delay)).sum + T)⟩ := by
+  rw [server_rearms, active_never_cut T hT cs 0 0 h]
+  simp
+
 /-- **An idle connection is cut at its deadline**: silent after connect … -/
 theorem idle_after_connect (T : Nat) (hT : T ≠ 0) : run T [] = ⟨0, some T⟩ := by
   simp [run, simulate, hT]
